@@ -16,6 +16,8 @@ class RunCtx:
         self.rng_logs = {}  # generator name -> list of (seq, method, args, result)
         self.post_logs = {}  # target tag -> list of (seq, kind, theta, value)
         self.n_gen = 0
+        self.namespace = None  # (label, seed_group): names/seeds of generators created next
+        self.ns_count = {}
         self.faults = dict(tail_p=0.0, edge_u_p=0.0)
         if faults:
             self.faults.update(faults)
